@@ -298,6 +298,24 @@ def bv_random(rng, bs, length):
 # reads before the write), copies, self-swap / self-assignment, the other object as receiver, default-argument spellings, and the
 # instance-tracking element type (param + 1000, for SLList param 2).  Abstractly these are the same operations.
 
+INT_MIN, INT_MAX = -2**31, 2**31 - 1
+EXTREME = [INT_MIN, INT_MAX, -1, INT_MIN + 1, INT_MAX - 1, 0]
+
+
+def xval(rng, v, p=0.12):
+    """MAGNITUDE / SIGN (audit 2, kind D): element and mapped values at the extremes of int and negative instead of small positive ones"""
+    z = rng.random()
+    return rng.choice(EXTREME) if z < p else -v if z < 1.5 * p else v
+
+
+def al_target(rng, cs):
+    """PRE-EXISTING STATE (audit 2, kind A): shape of an assignment target: m elements, eraseToHere at k (-1: none), purge flag; aimed at chunk boundaries"""
+    m = rng.choice([0, 1, cs, cs + 1, 2 * cs, 2 * cs + 1, 3 * cs + 2, rng.randrange(3 * cs + 3)])
+    k = rng.choice([-1, m - 1, cs - 1, cs, 2 * cs - 1, rng.randrange(-1, max(m, 1))])
+    if k >= m: k = m - 1
+    return "%d:%d:%d" % (m, k, rng.randrange(2))
+
+
 def vary_al(rng, case):
     t = case.split(); N = int(t[1]); l = []; out = []
     for op in t[2:]:
@@ -305,7 +323,8 @@ def vary_al(rng, case):
         if a[0] == "pb":
             if l and rng.random() < 0.2:
                 i = rng.randrange(len(l)); op = "pba:%d:%d" % (i, l[i]); l.append(l[i])
-            else: l.append(int(a[1]))
+            else:
+                v = xval(rng, int(a[1])); op = "pb:%d" % v; l.append(v)
         elif a[0] == "er": l = l[int(a[1]) + 1:]
         elif a[0] == "cl": l = []
         elif a[0] == "set":
@@ -315,6 +334,7 @@ def vary_al(rng, case):
             else: l[i] = int(a[2])
         out.append(op)
         if rng.random() < 0.06: out.append(rng.choice(["cpy", "cpyd", "cpya"]))
+        if rng.random() < 0.07: out.append(rng.choice(["asgo:", "asgo:", "asgm:"]) + al_target(rng, max(N, 1)))
     if N in (0, 1, 2, 3, 7) and rng.random() < 0.35: N += 1000
     return "al %d " % N + " ".join(out)
 
@@ -324,7 +344,7 @@ def vary_sl(rng, case):
     for op in t[2:]:
         a = op.split(":"); i = int(a[1]) if len(a) > 1 else 0; l = L[i]
         if a[0] in ("pb", "pf", "mend"):
-            v = int(a[2])
+            v = xval(rng, int(a[2])); op = "%s:%d:%d" % (a[0], i, v)
             if a[0] != "mend" and l and rng.random() < 0.25:
                 k = rng.randrange(len(l)); v = l[k]; op = "%se:%d:%d:%d" % (a[0], i, k, v)
             if a[0] == "pf": l.insert(0, v)
@@ -350,7 +370,7 @@ def vary_rv(rng, case):
     for op in t[2:]:
         a = op.split(":"); i = int(a[1]) if len(a) > 1 and a[0] != "swap" else 0; v = V[i]
         if a[0] in ("pb", "pbm", "eb"):
-            x = int(a[2]); known = [k for k, e in enumerate(v) if e is not None]
+            x = xval(rng, int(a[2]), 0.3); op = "%s:%d:%d" % (a[0], i, x); known = [k for k, e in enumerate(v) if e is not None]
             if known and rng.random() < 0.25:
                 k = rng.choice(known); x = v[k]; op = "%s:%d:%d:%d" % (rng.choice(["pbe", "ebe"]), i, k, x)
             v.append(x)
@@ -359,13 +379,15 @@ def vary_rv(rng, case):
         elif a[0] == "rsz":
             k = int(a[2]); V[i] = v[:k] + [None] * (k - len(v))
         elif a[0] == "cl": V[i] = []
-        elif a[0] == "set": v[int(a[2])] = int(a[3])
+        elif a[0] == "set":
+            x = xval(rng, int(a[3]), 0.3); op = "set:%d:%s:%d" % (i, a[2], x); v[int(a[2])] = x
         elif a[0] == "fill":
-            x = int(a[2]); known = [k for k, e in enumerate(v) if e is not None]
+            x = xval(rng, int(a[2]), 0.3); op = "fill:%d:%d" % (i, x); known = [k for k, e in enumerate(v) if e is not None]
             if known and rng.random() < 0.5:
                 k = rng.choice(known); x = v[k]; op = "fille:%d:%d:%d" % (i, k, x)
             V[i] = [x] * len(v)
-        elif a[0] == "mk": V[i] = [int(a[3])] * int(a[2])
+        elif a[0] == "mk":
+            x = xval(rng, int(a[3]), 0.3); op = "mk:%d:%s:%d" % (i, a[2], x); V[i] = [x] * int(a[2])
         elif a[0] == "mkd": V[i] = [0] * int(a[2])
         elif a[0] == "from": V[i] = [int(x) for x in a[2].split(",")] if len(a) > 2 and a[2] else []
         elif a[0] == "il": V[i] = list(range(1, int(a[2]) + 1))
@@ -376,8 +398,17 @@ def vary_rv(rng, case):
         out.append(op)
         if rng.random() < 0.08:
             j = rng.randrange(2); out.append("%s:%d:%d" % (rng.choice(["swaps", "asgs", "cpyc"]), j, len(V[j])))
+        if rng.random() < 0.06: out.append("atbig:%d:%d" % (rng.randrange(2), rng.randrange(6)))     # indices 2^31 .. SIZE_MAX (kind C/D)
     if n in (1, 2, 3, 5) and rng.random() < 0.35: n += 1000
     return "rv %d " % n + " ".join(out)
+
+
+def lru_target(rng, nk, l):
+    """PRE-EXISTING STATE (kind A): entries of an assignment target: observed keys (so that a surviving entry is seen by find), overlapping the
+    source's keys with other values, in another order, with repeats, usually MORE entries than the source holds"""
+    cnt = rng.choice([0, 1, nk, nk + 1, len(l) + 1, rng.randrange(2 * nk + 2)])
+    keys = [rng.randrange(nk + 1) for _ in range(cnt)]
+    return ",".join("%d=%d" % (k, 9000 + j) for j, k in enumerate(keys))
 
 
 def vary_lru(rng, case):
@@ -388,7 +419,7 @@ def vary_lru(rng, case):
     for op in t[2:]:
         a = op.split(":")
         if a[0] == "ins":
-            k, v = int(a[1]), int(a[2])
+            k, v = int(a[1]), xval(rng, int(a[2])); op = "ins:%d:%d" % (k, v)
             if l and rng.random() < 0.25:
                 k2, v = rng.choice(l); op = "insa:%d:%d:%d" % (k, k2, v)
             front(k, v)
@@ -403,21 +434,65 @@ def vary_lru(rng, case):
         elif a[0] == "cl": l = []
         out.append(op)
         if rng.random() < 0.06: out.append(rng.choice(["cpy", "cpyd", "cpya"]))
+        if rng.random() < 0.08: out.append("asgo:" + lru_target(rng, nk, l))
     if rng.random() < 0.35: nk += 1000
     return "lru %d " % nk + " ".join(out)
 
 
 def vary_bv(rng, case):
-    t = case.split(); out = []
+    t = case.split(); out = []; bs = int(t[1]); n = 0
     for op in t[2:]:
         a = op.split(":")
+        if a[0] == "rsz": n = int(a[1])
+        elif a[0] == "cl": n = 0
         if a[0] == "rsz" and a[2] == "0" and rng.random() < 0.5: op = "rszd:%s" % a[1]
+        elif a[0] == "set" and rng.random() < 0.4:               # MAGNITUDE: set(n, val) with val outside {0, 1}
+            op = "setv:%s:%s:%d" % (a[1], a[2], 0 if a[3] == "0" else rng.choice([2, -1, 256, INT_MIN, INT_MAX, 4, -2, 65536]))
         elif a[0] == "set" and a[3] == "1" and rng.random() < 0.5: op = "set1:%s:%s" % (a[1], a[2])
+        elif a[0] in ("abits", "and", "or", "xor") and rng.random() < 0.4:   # TWO PARTICIPANTS: the operand block lives in another vector of another size
+            m = rng.choice([1, 2, n + 1, max(n - 1, 1), 7]); k = rng.randrange(m)
+            tok = {"abits": rng.choice(["xblk", "xblkc"]), "and": "xand", "or": "xior", "xor": "xxor"}[a[0]]
+            op = "%s:%s:%s:%d:%d" % (tok, a[1], a[2], m, k)
+        elif a[0] in ("shl", "shr") and int(a[2]) >= bs and rng.random() < 0.7:   # MAGNITUDE: counts 2^31, 2^31+1, 2^32, 2^63, SIZE_MAX
+            op = "%sb:%s:%d" % (a[0], a[1], rng.randrange(5))
         out.append(op)
+        if rng.random() < 0.06:                                  # PRE-EXISTING STATE: whole-vector assignment onto vectors of other sizes / contents
+            out.append("asgo:%d:%d:%d" % (rng.choice([0, 1, n + 1, max(n - 1, 0), 2 * n + 3]), rng.randrange(2), n))
     return " ".join(t[:2] + out)
 
 
 VARY = {"al": vary_al, "sl": vary_sl, "rv": vary_rv, "lru": vary_lru, "bv": vary_bv}
+
+
+def audit2_directed(rng):
+    """dimension audit 2: small deterministic families for the new ops (assignment onto every small target shape, extremes, big indices / counts)"""
+    out = []
+    for N in (1, 2, 3):                                  # ArrayList: every target shape up to three chunks x sources with start_ != 0
+        for m in range(0, 3 * N + 2):
+            for k in range(-1, m):
+                for p in (0, 1):
+                    for tok in ("asgo", "asgm"):
+                        if tok == "asgm" and (m + k + p) % 3: continue
+                        out.append("al %d pb:1 pb:2 pb:3 pb:4 er:%d %s:%d:%d:%d pb:5 pb:6 set:0:9 er:0 pg pb:7 hold:0 pb:8" % (N, (m + p) % 2, tok, m, k, p))
+    out.append("al 2 asgo:5:2:0 pb:1 pb:2 pb:3")            # empty source onto a non-empty target
+    out.append("al 1002 pb:1 pb:2 pb:3 er:0 asgo:5:3:0 pb:4 asgm:4:1:1 pb:5 cl pb:6")
+    for nk in (2, 3):                                    # lru: every target over <= 3 entries of the observed keys (+ one unobserved key)
+        keys = list(range(nk + 1))
+        for cnt in range(0, 4):
+            for ks in itertools.product(keys, repeat=cnt):
+                pre = ",".join("%d=%d" % (k, 90 + j) for j, k in enumerate(ks))
+                out.append("lru %d ins:0:5 ins:1:6 asgo:%s touch:%d ins:%d:8 popb touch:0 ins1:1" % (nk, pre, nk - 1, nk - 1))
+    out.append("lru 3 asgo:0=1,1=2,2=3 ins:1:4 touch:0")    # empty source onto a full target
+    out.append("lru 1003 ins:0:5 ins:1:6 ins:2:7 popb asgo:2=1,0=2,1=3,2=4 touch:2 ins:2:%d popf" % INT_MIN)
+    for bs in (1, 3, 8):
+        z = "0" * bs; o = "1" * bs; alt = ("10" * bs)[:bs]
+        out.append("bv %d rsz:2:0 setv:0:0:2 setv:1:%d:-1 setv:0:0:0 setv:1:0:%d setv:1:0:256 setv:0:%d:%d asgo:0:0:2 asgo:5:1:2 rsz:3:1 asgo:1:1:3 xblk:0:%s:4:3 xblkc:1:%s:1:0 xand:2:%s:3:1 xior:0:%s:2:1 xxor:1:%s:5:4 shlb:2:0 shrb:1:3 bset:0 shlb:0:4 bset:0 shrb:0:1"
+                   % (bs, bs - 1, INT_MIN, bs - 1, INT_MAX, alt, o, alt, alt, o))
+    for n in (1, 2, 3):
+        out.append("rv %d pb:0:%d atbig:0:0 atbig:0:1 atbig:0:2 atbig:0:3 atbig:1:4 atbig:0:5 pop:0 atbig:0:3 pb:1:%d pb:0:-1 asg:0" % (n, INT_MIN, INT_MAX))
+        out.append("rv %d mk:0:%d:%d mk:1:%d:%d set:1:0:%d from:0:%s swap asg:1" % (n, n, INT_MAX, n, INT_MIN, INT_MAX, ",".join(str(x) for x in [INT_MIN, -1, INT_MAX][:n])))
+    out.append("sl 0 pb:0:%d pf:0:%d pb:1:%d mins:0:1:-1 asg:1 cpy:0 mrem:0:0" % (INT_MIN, INT_MAX, INT_MIN))
+    return out
 
 
 def gen(ctx):
@@ -461,6 +536,7 @@ def gen(ctx):
     vr = ctx.rng("vary")
     base = cases[ncorpus + nexh:]
     cases += [VARY[c.split(" ", 1)[0]](vr, c) for c in base]
+    cases += audit2_directed(vr)
     for bs in (64, 65):                                  # word boundaries of std::bitset / vector<bool>
         for j in range(6 * R):
             cases.append(vary_bv(vr, bv_random(rng, bs, rng.choice([10, 40]))))
@@ -611,7 +687,7 @@ def shrink(ctx, impls, model, case, sig):
     """delta debugging on the op list with the impl in the loop: drop ops while the same signature still fails"""
     t = case.split(); head, ops = t[:2], t[2:]
     ALIAS = ("pba", "seta", "pbe", "pfe", "minse", "ebe", "fille", "insa", "toucha", "swaps", "asgs", "cpyc")
-    if any(o.split(":")[0] in ALIAS for o in ops):
+    if any(o.split(":")[0] in ALIAS or (o.startswith("asgo:") and head[0] == "bv") for o in ops):
         return case          # these tokens carry values / sizes that depend on the preceding ops: dropping ops would make the history inconsistent
     def fails(ops2):
         c = " ".join(head + ops2)
